@@ -106,7 +106,7 @@ class ProcResult(object):
         self.err = err
 
 
-def _run(argv, cwd, hashseed=0, timeout=1500, stdout=None):
+def _run(argv, cwd, hashseed=0, timeout=5400, stdout=None):
     t0 = time.time()
     p = subprocess.run(argv, cwd=cwd, env=child_env(hashseed), stdout=stdout or subprocess.DEVNULL, stderr=subprocess.PIPE, timeout=timeout)
     return ProcResult(p.returncode, time.time() - t0, p.stderr.decode("utf-8", "replace")[-1500:]), p
